@@ -1,6 +1,7 @@
 package codec
 
 import (
+	"strconv"
 	"encoding/json"
 	"fmt"
 	"sync"
@@ -213,12 +214,20 @@ type DamageObs struct {
 	Wire     B          `json:"wire"`
 	Tried    int        `json:"tried"`
 	Accepted []Accepted `json:"accepted"`
+	// Crashed: variants on which the parser panicked or did not return (mode carries what happened)
+	Crashed []Accepted `json:"crashed"`
 }
 
 func accepts(tmpl *Msg, d []byte, strict bool) bool {
+	ok, _ := acceptsOrCrashes(tmpl, d, strict)
+	return ok
+}
+
+// acceptsOrCrashes: (accepted, panic text / "did not return" or "")
+func acceptsOrCrashes(tmpl *Msg, d []byte, strict bool) (bool, string) {
 	target, err := Build(tmpl, true)
 	if err != nil {
-		return false
+		return false, ""
 	}
 	err, pn := safely(func() error {
 		if strict {
@@ -226,13 +235,13 @@ func accepts(tmpl *Msg, d []byte, strict bool) bool {
 		}
 		return encoding.DefaultUnmarshaller{Strict: false, Validator: encoding.DefaultValidator{}}.Unmarshal(target, d)
 	})
-	return err == nil && pn == ""
+	return err == nil && pn == "", pn
 }
 
 // RunDamage tries every single-byte substitution, insertion, deletion and proper prefix.
 // full=false restricts substitution/insertion values to a representative byte set.
 func RunDamage(id string, tmpl *Msg, wire []byte, full bool) *DamageObs {
-	o := &DamageObs{K: "damage", ID: id, Tags: tmpl.Tags, Wire: ToB(wire), Accepted: []Accepted{}}
+	o := &DamageObs{K: "damage", ID: id, Tags: tmpl.Tags, Wire: ToB(wire), Accepted: []Accepted{}, Crashed: []Accepted{}}
 	vals := make([]int, 0, 256)
 	if full {
 		for b := 0; b < 256; b++ {
@@ -249,10 +258,14 @@ func RunDamage(id string, tmpl *Msg, wire []byte, full bool) *DamageObs {
 	try := func(kind string, pos, b int, d []byte) {
 		for _, mode := range []string{"strict", "nonstrict"} {
 			o.Tried++
-			if accepts(tmpl, d, mode == "strict") {
+			ok, pn := acceptsOrCrashes(tmpl, d, mode == "strict")
+			if ok {
 				if len(o.Accepted) < 40 {
 					o.Accepted = append(o.Accepted, Accepted{kind, pos, b, mode, ToB(d)})
 				}
+			}
+			if pn != "" && len(o.Crashed) < 20 {
+				o.Crashed = append(o.Crashed, Accepted{kind, pos, b, mode + ": " + pn, ToB(d)})
 			}
 		}
 		// one parser object and one receive buffer for a whole connection: the valid message is parsed from the buffer, the damaged
@@ -606,7 +619,7 @@ func wellFormedForParse(m *Msg) bool {
 // RunDamageConcurrent: damaged variants are parsed while other goroutines serialize and parse the valid message
 // (the encoder and the decoder share the checksum routine): still never accepted.
 func RunDamageConcurrent(id string, tmpl *Msg, wire []byte, iters int) *DamageObs {
-	o := &DamageObs{K: "damage", ID: id, Tags: tmpl.Tags, Wire: ToB(wire), Accepted: []Accepted{}}
+	o := &DamageObs{K: "damage", ID: id, Tags: tmpl.Tags, Wire: ToB(wire), Accepted: []Accepted{}, Crashed: []Accepted{}}
 	var variants [][]byte
 	for _, pos := range []int{len(wire) / 3, len(wire) / 2, 2 * len(wire) / 3} {
 		if pos > 0 && pos < len(wire)-8 && wire[pos] != 1 && wire[pos] != '=' {
@@ -666,4 +679,71 @@ func RunDamageConcurrent(id string, tmpl *Msg, wire []byte, iters int) *DamageOb
 	close(stop)
 	wg.Wait()
 	return o
+}
+
+
+// RunConcurrentFirstDecodes: several goroutines decode, at the same instant, valid messages whose tags the process has never seen
+// (each goroutine its own template with fresh tag numbers), round after round: what a server does when several clients speak to it
+// for the first time.  Every decode is recorded like a raw input (a valid message: "ok" is expected); a decoder that shares state
+// between calls without synchronisation ends the process with a runtime error, which the checks report.
+func RunConcurrentFirstDecodes(idPrefix string, rounds, width int, firstTag int) []*RawObs {
+	var out []*RawObs
+	next := firstTag
+	for r := 0; r < rounds; r++ {
+		type job struct {
+			tm   *Msg
+			wire []byte
+		}
+		jobs := make([]job, width)
+		for k := range jobs {
+			kv := func(ty string) Node {
+				next++
+				return Node{K: "kv", Tag: S2B(strconv.Itoa(next)), Ty: ty, Txt: S2B("1"), Pop: true, Via: "new"}
+			}
+			grpTag := func() B { next++; return S2B(strconv.Itoa(next)) }
+			m := Msg{Tags: stdTags, BeginString: S2B("FIX.4.4"), MsgType: S2B("ZC"),
+				Header: []Node{kv("int")},
+				Body: []Node{kv("string"), {K: "grp", Tag: grpTag(), Tmpl: []Node{kv("string"), kv("int")},
+					Entries: [][]Node{{kv("string"), kv("int")}}}, kv("string")}}
+			// the entry's leaves must carry the template's tags
+			g := &m.Body[1]
+			for i := range g.Entries[0] {
+				g.Entries[0][i].Tag = g.Tmpl[i].Tag
+			}
+			m.Norm()
+			msg, err := Build(&m, false)
+			if err != nil {
+				continue
+			}
+			w, err := msg.ToBytes()
+			if err != nil {
+				continue
+			}
+			jobs[k] = job{&m, w}
+		}
+		start := make(chan struct{})
+		res := make([]*RawObs, width*2)
+		var wg sync.WaitGroup
+		for k := range jobs {
+			if jobs[k].tm == nil {
+				continue
+			}
+			wg.Add(1)
+			go func(k int) {
+				defer wg.Done()
+				<-start
+				for j, op := range []string{"strict", "nonstrict"} {
+					res[2*k+j] = RunRaw(fmt.Sprintf("%s%d-%d/%s", idPrefix, r, k, op), jobs[k].tm, op, jobs[k].wire, "", 5*time.Second)
+				}
+			}(k)
+		}
+		close(start)
+		wg.Wait()
+		for _, o := range res {
+			if o != nil && (o.Outcome != "ok" || r == 0) { // keep the record small: every failure, and the first round as a sample
+				out = append(out, o)
+			}
+		}
+	}
+	return out
 }
